@@ -53,6 +53,10 @@ KERNELS = [
     "latin_1_measure_from_utf8", "latin_1_convert_from_utf8", "latin_1_measure_from_utf16", "latin_1_convert_from_utf16",
     "latin_1_convert_from_utf32",
     "validate_utf8", "cleanup_utf8",
+    # include/st_codecs_priv.h
+    "hex_encode", "b64_encode",
+    # include/st_string_priv.h: the case-insensitive comparison of two ranges of equal length
+    "compare_ci/3",
 ]
 
 class Unsupported(Exception):
@@ -295,9 +299,15 @@ class Translator:
                 x = sub
                 while x["kind"] in ("ParenExpr",):
                     x = inner(x)[0]
-                if x["kind"] == "DeclRefExpr" and x["referencedDecl"].get("name") in self.arrays:
+                an = x["referencedDecl"].get("name") if x["kind"] == "DeclRefExpr" else None
+                if fn is not None and an in fn.arrays:
                     r = Val("0", 0, 0, atom=True)
-                    r.mem = "[" + ", ".join(str(b) for b in self.arrays[x["referencedDecl"]["name"]]) + "]"
+                    r.mem = "%s_%s" % (fn.name, an)
+                    return [], r, env
+                arr = self.arrays.get(an)
+                if arr is not None:
+                    r = Val("0", 0, 0, atom=True)
+                    r.mem = "[" + ", ".join(str(b) for b in arr) + "]"
                     return [], r, env
                 raise Unsupported("array used as a pointer")
             if ck == "PointerToBoolean":
@@ -557,7 +567,14 @@ class Translator:
             line = "let %s := %s + 1" % (new, v["name"])
         else:
             if v["lo"] < 1 and not v["isint"]:
-                raise Unsupported("-- on a value that may be 0")
+                if v["kind"] != "int":
+                    raise Unsupported("-- on a pointer that may be at the start of its range")
+                r = self.var_range(v)      # unsigned wrap-around: 0 - 1 = 2^w - 1
+                line = "let %s := (%s + %d) %% %d" % (new, v["name"], r[1], r[1] + 1)
+                nv = dict(v); nv["name"] = new; nv["lo"], nv["hi"] = r
+                env.vars[name] = nv
+                newv = Val(new, r[0], r[1], atom=True)
+                return [line], (old if n.get("isPostfix") else newv), env
             line = "let %s := %s - 1" % (new, v["name"])
         nv = dict(v); nv["name"] = new; nv["lo"] = v["lo"] + d; nv["hi"] = v["hi"] + d
         if v["kind"] == "int":
@@ -623,8 +640,24 @@ class Translator:
             raise Unsupported("call of a function that is not translated: " + name)
         sig = self.sigs[name]
         lines = []; texts = []; inout = []
-        if sig["mem"]:
-            texts.append("mem")
+        if len(args) != sig.get("arity", len(args)):
+            raise Unsupported("call of an overload of %s that is not translated" % name)
+        if sig["mem"] and not sig.get("regions"):
+            texts.append(fn.mem_args if not fn.regions else "mem")
+            if fn.regions:
+                raise Unsupported("call of a single-range function from a function with several source ranges")
+        if sig.get("regions"):
+            for a, prm in zip(args, sig["params"]):
+                if prm["kind"] in ("src", "srcref"):
+                    _, v0, _ = self.expr(fn, a, env) if prm["kind"] == "src" else ([], Val("", 0, 0), env)
+                    if prm["kind"] == "srcref":
+                        x0 = a
+                        while x0["kind"] in ("ImplicitCastExpr", "ParenExpr"):
+                            x0 = inner(x0)[0]
+                        m0 = env.vars.get(x0.get("referencedDecl", {}).get("name"), {}).get("mem")
+                    else:
+                        m0 = v0.mem
+                    texts.append(m0 or "mem")
         if sig.get("fuel"):
             texts.append("fuel"); fn.needs_fuel = True
         for a, p in zip(args, sig["params"]):
@@ -702,8 +735,15 @@ class Translator:
         if kind == "DeclStmt":
             lines = []
             for d in inner(s):
+                if d["kind"] == "StaticAssertDecl":
+                    continue
                 if d["kind"] != "VarDecl":
                     raise Unsupported("declaration " + d["kind"])
+                if inner(d) and inner(d)[0]["kind"] == "StringLiteral" and "const" in qt(d) and re.search(r"\[\d+\]$", strip_cv(qt(d))):
+                    fn.arrays[d["name"]] = c_string_bytes(inner(d)[0]["value"])      # a constant table local to the function
+                    fn.aux += ["/-- the table `%s` of `%s` (with its terminating NUL) -/" % (d["name"], fn.name),
+                               "def %s_%s : List Nat := [%s]" % (fn.name, d["name"], ", ".join(str(b) for b in fn.arrays[d["name"]])), ""]
+                    continue
                 l, env = self.vardecl(fn, d, env)
                 lines += [pad + x for x in l]
             return lines + k(env, ind)
@@ -965,6 +1005,15 @@ class Translator:
             while x["kind"] in ("ParenExpr", "ImplicitCastExpr", "ConstantExpr") and (x["kind"] != "ImplicitCastExpr" or x.get("castKind") in ("IntegralCast", "LValueToRValue", "NoOp")):
                 x = inner(x)[0]
             return x
+        if n["kind"] == "ImplicitCastExpr" and n.get("castKind") == "IntegralToBoolean":
+            x = strip(inner(n)[0])
+            if x["kind"] == "DeclRefExpr" and env.vars.get(x["referencedDecl"].get("name"), {}).get("kind") == "int":
+                env = env.copy(); v = env.vars[x["referencedDecl"]["name"]]
+                if truth:
+                    if v["lo"] == 0: v["lo"] = 1
+                else:
+                    v["lo"] = max(v["lo"], 0); v["hi"] = min(v["hi"], 0)
+            return env
         if n["kind"] != "BinaryOperator" or n["opcode"] not in ("<", ">", "<=", ">=", "==", "!="):
             return env
         a, b = [strip(x) for x in inner(n)]
@@ -1017,7 +1066,7 @@ class Translator:
             raise Unsupported("loop entered while a block copy is pending")
         fn.loops += 1; fn.needs_fuel = True
         lname = "%s_loop%d" % (fn.name, fn.loops)
-        mod = assigned_vars(body, set()) | (assigned_vars(inc, set()) if inc is not None else set())
+        mod = assigned_vars(body, set()) | (assigned_vars(inc, set()) if inc is not None else set()) | assigned_vars(cond, set())
         live = [(c, v) for c, v in env.vars.items() if v["kind"] != "out" and v["name"] is not None]
         carried = [(c, v) for c, v in live if c in mod]
         fixed = [(c, v) for c, v in live if c not in mod]
@@ -1046,7 +1095,7 @@ class Translator:
             if e.pending is not None:
                 raise Unsupported("loop iteration ends while a block copy is pending")
             args = [e.vars[c]["name"] for c, v in carried] + ([e.out] if has_out else [])
-            return ["  " * i + "%s %s%s fuel %s" % (lname, "mem " if True else "", " ".join([v["name"] for c, v in fixed] + flags), " ".join(args))]
+            return ["  " * i + "%s %s %s fuel %s" % (lname, fn.mem_args, " ".join([v["name"] for c, v in fixed] + flags), " ".join(args))]
         def after_body(e, i):
             if inc is None:
                 return recur(e, i)
@@ -1057,7 +1106,7 @@ class Translator:
             body_lines = self.cond_tree(fn, cond, lenv, lambda e, i: self.stmt(fn, body, e, after_body, i), lambda e, i: k(e, i), 2)
         finally:
             fn.loopctx.pop()
-        sig = "def %s (mem : List Nat) %s : Nat → %s → M (%s)" % (lname, fixed_b, " → ".join(carried_tys) if carried_tys else "Unit", "%RTY%")
+        sig = "def %s %s %s : Nat → %s → M (%s)" % (lname, fn.mem_binders, fixed_b, " → ".join(carried_tys) if carried_tys else "Unit", "%RTY%")
         pats = ", ".join(carried_names) if carried_names else "_"
         fn.aux += [sig,
                    "  | 0, %s => throw Fault.fuel" % ", ".join("_" for _ in (carried_names or ["_"])),
@@ -1065,13 +1114,62 @@ class Translator:
         args = [v["name"] for c, v in carried] + ([out0] if has_out else [])
         if not carried_names:
             args = ["()"]
-        return pre + [pad + "%s mem %s fuel %s" % (lname, " ".join([v["name"] for c, v in fixed] + flags), " ".join(args))]
+        return pre + [pad + "%s %s %s fuel %s" % (lname, fn.mem_args, " ".join([v["name"] for c, v in fixed] + flags), " ".join(args))]
     def switch(self, fn, s, env, k, ind):
-        raise Unsupported("switch")
+        """`switch (v) { case c: ...; break; ... default: ...; break; }` without fall-through -> an if-chain on v"""
+        parts = inner(s)
+        cond, body = parts[-2], parts[-1]
+        if body["kind"] != "CompoundStmt":
+            raise Unsupported("switch body")
+        sections = []      # (list of case constants or None for default, statements)
+        for c in inner(body):
+            if c["kind"] in ("CaseStmt", "DefaultStmt"):
+                labels = []; node = c
+                while node["kind"] in ("CaseStmt", "DefaultStmt"):      # `case 1: case 2: stmt`
+                    if node["kind"] == "CaseStmt":
+                        ce = inner(node)[0]
+                        l0, cv, _ = self.expr(fn, ce, env)
+                        if l0 or cv.lo != cv.hi:
+                            raise Unsupported("case label is not a constant")
+                        labels.append(cv.lo); node = inner(node)[1]
+                    else:
+                        labels.append(None); node = inner(node)[0]
+                sections.append((labels, [node]))
+            else:
+                if not sections:
+                    raise Unsupported("statement before the first case label")
+                sections[-1][1].append(c)
+        for labels, stmts in sections:
+            if not stmts or stmts[-1]["kind"] not in ("BreakStmt", "ReturnStmt"):
+                raise Unsupported("switch section falls through")
+        pad = "  " * ind
+        l, v, env = self.expr(fn, cond, env)
+        lines = [pad + x for x in l]
+        default = [st for lb, st in sections if None in lb]
+        cases = [(lb, st) for lb, st in sections if None not in lb]
+        def section(stmts):
+            body = stmts[:-1] if stmts[-1]["kind"] == "BreakStmt" else stmts
+            if any(has_kind(x, ("BreakStmt",)) for x in body):
+                raise Unsupported("break inside a switch section other than at its end")
+            return lambda e, i: self.block(fn, body, e, k, i)
+        def chain(rest, e, i):
+            if not rest:
+                return section(default[0])(e, i) if default else k(e, i)
+            (lb, st) = rest[0]
+            p = "  " * i
+            test = " ∨ ".join("%s = %s" % (v.p(), lit(c).text if not v.isint else "(%d : Int)" % c) for c in lb)
+            e_then = e
+            return [p + "if %s then" % test] + section(st)(e_then, i + 1) + [p + "else"] + chain(rest[1:], e, i + 1)
+        return lines + chain(cases, env, ind)
 
     # ------------------------------------------------------------------------- functions
     def function(self, name, special=None, as_name=None):
+        arity = None
+        if "/" in name:
+            name, arity = name.split("/"); arity = int(arity)
         cands = self.fdecls.get(name, [])
+        if arity is not None:
+            cands = [c for c in cands if len([x for x in inner(c) if x["kind"] == "ParmVarDecl"]) == arity]
         if len(cands) != 1:
             raise Unsupported("%d definitions of %s" % (len(cands), name))
         d = cands[0]
@@ -1079,7 +1177,15 @@ class Translator:
         fn = Fn(self, d)
         if as_name:
             fn.name = as_name
-        fn.loops = 0; fn.needs_fuel = False; fn.loopctx = []; fn.clones = {}
+        fn.loops = 0; fn.needs_fuel = False; fn.loopctx = []; fn.clones = {}; fn.arrays = {}
+        # a function with several `const T *` parameters reads several source ranges: one list per parameter
+        # (which parameters point into different ranges is stated in SEPARATE_RANGES; by default every `const T *` parameter of a
+        # function points into the one range `mem`, as `utf8` and `end` of extract_utf8 do)
+        srcs = [c["name"] for c in inner(d) if c["kind"] == "ParmVarDecl" and is_pointer(qt(c)) and "const" in pointee(qt(c))
+                and "mem" not in special.get(c["name"], {}) and c["name"] in SEPARATE_RANGES.get(name, ())]
+        fn.regions = ["mem_" + lean_name(x) for x in srcs] if len(srcs) > 1 else None
+        fn.mem_binders = " ".join("(%s : List Nat)" % r for r in fn.regions) if fn.regions else "(mem : List Nat)"
+        fn.mem_args = " ".join(fn.regions) if fn.regions else "mem"
         env = Env()
         params = []; binders = []; fn.inouts = []; fn.has_out = False; uses_mem = False
         body = None
@@ -1096,7 +1202,7 @@ class Translator:
                     if const:
                         region = special.get(pn, {}).get("mem")
                         if region in (None, "mem"):
-                            uses_mem = True; region = None
+                            uses_mem = True; region = ("mem_" + ln) if fn.regions else None
                         env.vars[pn] = dict(name=ln, lo=0, hi=(1 << 62), isint=False, kind="src", ctype=t, mem=region)
                         binders.append("(%s : Nat)" % ln)
                         if is_ref(t):
@@ -1152,15 +1258,17 @@ class Translator:
         rty = " × ".join(rtys) if rtys else "Unit"
         uses_mem = uses_mem or fn.needs_fuel
         name = fn.name
-        head = "def %s %s%s%s: M (%s) := do" % (name, "(mem : List Nat) " if uses_mem else "", "(fuel : Nat) " if fn.needs_fuel else "",
+        head = "def %s %s%s%s: M (%s) := do" % (name, (fn.mem_binders + " ") if uses_mem else "", "(fuel : Nat) " if fn.needs_fuel else "",
                                                   " ".join(binders) + (" " if binders else ""), rty)
         fn.aux = [x.replace("%RTY%", rty) for x in fn.aux]
-        self.sigs[name] = dict(mem=uses_mem, params=params, ret=fn.ret, out=fn.has_out, fuel=fn.needs_fuel)
+        self.sigs[name] = dict(mem=uses_mem, params=params, ret=fn.ret, out=fn.has_out, fuel=fn.needs_fuel, regions=fn.regions, arity=len(params))
         loc = d.get("loc", {})
         src = "/-- `%s` (%s) -/" % (d["name"] if not as_name else "%s, specialised for a call site of %s" % (d["name"], as_name.rsplit("_", 2)[0]), os.path.basename(loc.get("file", loc.get("includedFrom", {}).get("file", "")) or "") or "include/")
         return fn.aux + [src, head] + lines
 
 INLINE = {"append_chars"}
+# functions whose pointer parameters address different source ranges (everything else reads one range)
+SEPARATE_RANGES = {"compare_ci": ("left", "right")}
 
 def passed_to(fdecl, pname, callees):
     def walk(n):
